@@ -6,16 +6,14 @@ import (
 
 // the recorded defect's witnesses, replayed on the real code on every run.
 func c04Known(c *Ctx) {
-	before := len(c.Res.Failures)
+	// the two former defects (fixed by 2b0afda63 and 51d3101c2): their witnesses are replayed on
+	// every run and must agree across encodings and pass the buffer filter
 	cs := &encCase{Check: "enc", Prog: "search foo", Values: []string{"{a:[{foo:1}]}"},
 		Encs: []encCfg{{Format: "zng", Compress: true, Threads: 1}, {Format: "zng", Thresh: 1, Threads: 4}}}
 	cs.check(c)
-	c04BF(c, []*bfCase{{Check: "bf", Pred: "foo", Frame: []string{"{a:[{foo:1}]}"}}})
+	c04BF(c, []*bfCase{{Check: "bf", Pred: "foo", Frame: []string{"{a:[{foo:1}]}"}},
+		{Check: "bf", Pred: `grep("ab", s+t)`, Frame: []string{`{s:"a",t:"b"}`}}})
 	cs2 := &encCase{Check: "enc", Prog: `search grep("ab", s+t)`, Values: []string{`{s:"a",t:"b"}`},
 		Encs: []encCfg{{Format: "zng", Compress: true, Threads: 1}}}
 	cs2.check(c)
-	if len(c.Res.Failures) < before+3 {
-		c.Stat("known:no-longer-fails")
-		c.Note("recorded witness no longer fails: `search foo` over {a:[{foo:1}]} as ZNG")
-	}
 }
